@@ -110,7 +110,9 @@ def spec(tier, seed):
         "instances": inst,
         # lemma 3 for several hunks rests on the hand-over between hunks (two-hunk instances do not fit the quick tier)
         "mir_vcs": [{"name": "apply_modify: offset and frozen line handed from one hunk to the next", "function": "apply_modify", "target": "lib",
-                     "run": lambda f, v, w: _mir.vc_apply_bookkeeping(f, v, w)}],
+                     "run": lambda f, v, w: _mir.vc_apply_bookkeeping(f, v, w)},
+                    {"name": "parse_hunk: the context counters restart at every changed line (one inductive step of the line loop)", "function": "parse_hunk", "target": "lib",
+                     "run": lambda f, v, w: _mir.vc_context_counts_reset(f, v, w)}],
         "level": "model_checking",
         "functions": ["parse_hunk", "parse_hunk_header", "parse_hunk_line", "parse_patch", "parse_filepatch", "FilePatchMetadata::recognize_kind / build_filepatch",
                       "parse_filename", "FilePatch::strip", "TextFilePatch::apply (apply_modify / apply_create / apply_delete)", "try_apply_hunk", "split_lines_with_endings"],
@@ -129,6 +131,8 @@ def spec(tier, seed):
 
 def replay_candidate(v, work, log):
     from .. import replay
+    if "parse_hunk" in (v.get("name") or ""):
+        return replay.replay_by_sweep("C01", v, work, log, module="parser", testname="replay_sweep_hunk_text")
     return replay.replay_by_sweep("C01", v, work, log)
 
 
